@@ -461,7 +461,7 @@ def stream_x2(run, n_cases):
 
 
 def known_histories(run):
-    """the two refuted model instances (Iso/Witness.v) on the real binary"""
+    """the two model instances of Iso/Witness.v (macro leak: refuted; cached return: holds since fix 8cb695c) on the real binary"""
     d = tempfile.mkdtemp(prefix="c17k_")
     stream = "W witnesses-on-binary"
     try:
@@ -494,13 +494,11 @@ def known_histories(run):
         run.count(stream, None, nontrivial="cached", bucket="cached:" + ("lost" if lost else "kept"))
         if lost:
             run.stream(stream)["disagreements"] += 1
-            run.violation(K_CACHED, "checkInternal returns for an up-to-date file before mLogger->clear(): the next file's identical header finding is not recorded; a later run loses it",
+            run.violation(K_CACHED, "the duplicate list is not emptied at the start of a file (fix 8cb695c missing?): after an up-to-date file the next file's identical header finding is not recorded; a later run loses it",
                           {"run1": r1, "run2": r2, "recorded_for_B.c_after_run2": rec.get("B.c"), "run3_incremental": r3, "run3_fresh": fresh,
                            "how": "h.h: static int hdiv(void){int z=0;return 1/z;}  A.c,B.c include it and call hdiv(). "
                                   "run1: --cppcheck-build-dir=bd A.c B.c; change B.c; run2 same; make A.c not include h.h; run3 same -> no zerodiv, a fresh run reports it "
                                   "(Iso/Witness.v ca, cb)"})
-        else:
-            run.notes.append("cached-return witness no longer reproduces on the binary: update Iso/Witness.v / known_findings.txt")
     finally:
         shutil.rmtree(d, ignore_errors=True)
 
